@@ -46,9 +46,16 @@ def base_name(t):
     return 'ARRAY' if t[0] == 'arr' else 'MESSAGE'
 
 
-def to_token(t, name='T'):
-    """Descriptor -> real hpl.types token."""
+def to_token(t, name='T', share=None):
+    """Descriptor -> real hpl.types token.  With a dictionary as `share`, equal message / array descriptors become
+    ONE token object used in several places (as a ROS message with two fields of one type usually is)."""
     import hpl.types as HT
+
+    if share is not None and not isinstance(t, str):
+        key = repr(t)
+        if key not in share:
+            share[key] = to_token(t, name, None) if t[0] == 'arr' and isinstance(t[1], str) else _to_token_shared(t, name, share)
+        return share[key]
 
     if t == 'B':
         return HT.BOOLEANS
@@ -60,6 +67,16 @@ def to_token(t, name='T'):
         return HT.ArrayType(name + '[]', to_token(t[1], name + '_elem'), t[2])
     fields = {k: to_token(v, f'{name}_{k}') for k, v in t[1].items()}
     consts = {k: (to_token(v[0], f'{name}_{k}'), v[1]) for k, v in t[2].items()}
+    return HT.MessageType(name, fields, consts)
+
+
+def _to_token_shared(t, name, share):
+    import hpl.types as HT
+
+    if t[0] == 'arr':
+        return HT.ArrayType(name + '[]', to_token(t[1], name + '_elem', share), t[2])
+    fields = {k: to_token(v, f'{name}_{k}', share) for k, v in t[1].items()}
+    consts = {k: (to_token(v[0], f'{name}_{k}', share), v[1]) for k, v in t[2].items()}
     return HT.MessageType(name, fields, consts)
 
 
